@@ -355,6 +355,19 @@ def fastSync (applies : List (Blk ι) → Blk ι → Bool) (finAfter : List (Blk
               | (c'', []) => ⟨c'', [], true, some .applyFailed⟩
               | (c'', rest) => ⟨c'', rest, false, some .restoreFailed⟩
 
+/-- `fastSyncer.getCommonBlock`: ONE `getHighestCommonBlock` request over the ids of the last `2n-1`
+heights of the own chain (`getLastHeights tip (2n)`: tip, tip-1, …), whatever the finalized height is;
+the answer must be a block of the own chain.  (`fastSync` starts with exactly this request; the
+finalized height is only compared with the answer afterwards.) -/
+def fastCommon (n : Nat) (q : List (Blk ι)) (peer : Peer ι) : Except SyncErr Nat :=
+  match peer.common (idsAt q (getLastHeights (q.length - 1) (2 * n))) with
+  | none => .error .requestFailed
+  | some none => .error .noCommon
+  | some (some cid) =>
+    match heightOf q cid with
+    | none => .error .unknownCommon
+    | some ch => .ok ch
+
 /-- the (at most three) rounds of `blockSyncer.getCommonBlockHeader` -/
 def commonSearch (n fin : Nat) (q : List (Blk ι)) (peer : Peer ι) : Nat → Nat → Except SyncErr Nat
   | 0, _ => .error .noCommon
@@ -413,6 +426,11 @@ def blockSync (applies : List (Blk ι) → Blk ι → Bool) (n fin myMhp : Nat) 
 rounds of slots have passed since the finalized block. -/
 inductive Mode where | fast | block | none
 deriving Repr, DecidableEq
+
+/-- `Syncer.shouldSync`: the slot of the finalized block is more than three rounds before the current
+slot (`currentSlot-finalizedSlot > threeRounds`, Go `int`) -/
+def shouldSync (n : Nat) (currentSlot finalizedSlot : Int) : Bool :=
+  decide (currentSlot - finalizedSlot > 3 * (n : Int))
 
 def chooseMode (n tipH blockH : Nat) (genIn stale : Bool) : Mode :=
   let diff := if blockH ≥ tipH then blockH - tipH else tipH - blockH
